@@ -244,6 +244,8 @@ pub fn kernel_lanczos(b: &SparseMat, verbose: Verbosity) -> Vec<BitVec> {
         ws.push(w);
         invgs.push(ginv);
         masks.push(!mask);
+        #[cfg(yamaquasi_verif)]
+        verif_hooks_small::record_lanczos_iter(&ws, &masks, &y);
     }
     // Check that Y is orthogonal to all blocks
     for w in &ws {
@@ -1135,6 +1137,23 @@ pub mod verif_hooks_small {
     /// The blocks drawn since the last `genblock_start` (and reset, limit removed).
     pub fn genblock_take() -> Vec<Vec<Lane>> {
         GENBLOCK.with(|c| std::mem::replace(&mut *c.borrow_mut(), (vec![], 0)).0)
+    }
+
+    thread_local! {
+        // per iteration of the main loop of `kernel_lanczos`: (mask, W_i, Y after the update)
+        static LANCZOS_ITERS: RefCell<Vec<(Lane, Vec<Lane>, Vec<Lane>)>> = RefCell::new(vec![]);
+    }
+
+    /// Called at the end of every completed iteration of the main loop of `kernel_lanczos`.
+    pub fn record_lanczos_iter(ws: &Vec<Block>, masks: &Vec<Lane>, y: &Block) {
+        let w = ws.last().map(|b| b.0.clone()).unwrap_or_default();
+        let m = !masks.last().copied().unwrap_or(0);
+        LANCZOS_ITERS.with(|c| c.borrow_mut().push((m, w, y.0.clone())));
+    }
+
+    /// The iterations recorded since the last call (and reset).
+    pub fn lanczos_iters_take() -> Vec<(Lane, Vec<Lane>, Vec<Lane>)> {
+        LANCZOS_ITERS.with(|c| std::mem::take(&mut *c.borrow_mut()))
     }
 
     pub fn lane_lz(w: Lane) -> usize {
